@@ -331,6 +331,22 @@ impl ContextDyn {
     }
 }
 
+#[cfg(feature = "verif-hooks")]
+impl<const BITS: usize> Context<BITS> {
+    /// verification hook: preset the two words of the byte counter
+    pub fn verif_set_counter(&mut self, t0: u32, t1: u32) {
+        self.eng.t = [t0, t1];
+    }
+}
+
+#[cfg(feature = "verif-hooks")]
+impl ContextDyn {
+    /// verification hook: preset the two words of the byte counter
+    pub fn verif_set_counter(&mut self, t0: u32, t1: u32) {
+        self.eng.t = [t0, t1];
+    }
+}
+
 // Due to limitation of const generic, we can't define finalize in the generic context, so instead
 // define support for specific known size, until the limitation is lifted
 macro_rules! context_finalize {
